@@ -182,6 +182,60 @@ def evo_units(tier):
                "what": "argument order: (%s) where the call assigns the variable" % shape}
 
 
+# ------------------------------------------------------------------------------------------ match expression / statement histories
+def mhist_units(tier):
+    """every sequence (length <= 3) of: a match EXPRESSION whose arm is a block consisting of one 'return e' (the arm's
+    value), a match STATEMENT whose arm prints and falls through, a call of a function that does either - executed in one
+    function; what comes after each must still run.  Block arms in expression position are only defined consistently by
+    the evaluator and the C back end (the VM treats the arm's return as the function's), hence engines native + eval."""
+    import itertools as it
+    alphabet = ("E", "S", "cE", "cS", "Sc", "SE")
+    n = 0
+    for ln in (1, 2, 3):
+        for seq in it.product(alphabet, repeat=ln):
+            uname = "mh_%d" % n
+            n += 1
+            un = "Mhu%d" % (n - 1)
+            decls = "union %s { A { v: int }, B { s: string } }\n" % un
+            decls += ("fn %s_ce(u: %s) -> int {\n    let r: int = match u {\n        A(a) => { return (+ a.v 1000) }\n        B(b) => { return 2 }\n    }\n"
+                      "    (println \"ce-after\")\n    return (+ r 1)\n}\nshadow %s_ce { assert true }\n" % (uname, un, uname))
+            decls += ("fn %s_cs(u: %s) -> int {\n    match u {\n        A(a) => { (println a.v) }\n        B(b) => { (println b.s) }\n    }\n"
+                      "    (println \"cs-after\")\n    return 5\n}\nshadow %s_cs { assert true }\n" % (uname, un, uname))
+            body = "    let u: %s = %s.A { v: 7 }\n    let mut acc: int = 0\n" % (un, un)
+            out = []
+            acc = 0
+            for k, op in enumerate(seq):
+                if op == "E":
+                    body += "    let r%d: int = match u {\n        A(a) => { return (+ a.v %d) }\n        B(b) => { return 0 }\n    }\n    (println r%d)\n    set acc (+ acc r%d)\n" % (k, 10 * (k + 1), k, k)
+                    out.append("%d\n" % (7 + 10 * (k + 1)))
+                    acc += 7 + 10 * (k + 1)
+                elif op == "S":
+                    body += "    match u {\n        A(a) => { (println (+ a.v %d)) }\n        B(b) => { (println b.s) }\n    }\n    (println \"after-s%d\")\n    set acc (+ acc 1)\n" % (100 * (k + 1), k)
+                    out.append("%d\nafter-s%d\n" % (7 + 100 * (k + 1), k))
+                    acc += 1
+                elif op == "Sc":      # a match statement whose arm CALLS a function that runs a returning match expression
+                    body += ("    match u {\n        A(a) => { (println (%s_ce u)) }\n        B(b) => { (println b.s) }\n    }\n    (println \"after-sc%d\")\n    set acc (+ acc 2)\n" % (uname, k))
+                    out.append("ce-after\n1008\nafter-sc%d\n" % k)
+                    acc += 2
+                elif op == "SE":      # a match statement whose arm CONTAINS a match expression with a return-block arm
+                    body += ("    match u {\n        A(a) => {\n            let q%d: int = match u {\n                A(c) => { return (+ c.v 1) }\n                B(c) => { return 0 }\n            }\n"
+                             "            (println q%d)\n        }\n        B(b) => { (println b.s) }\n    }\n    (println \"after-se%d\")\n    set acc (+ acc 3)\n" % (k, k, k))
+                    out.append("8\nafter-se%d\n" % k)
+                    acc += 3
+                elif op == "cE":
+                    body += "    set acc (+ acc (%s_ce u))\n    (println \"after-ce%d\")\n" % (uname, k)
+                    out.append("ce-after\nafter-ce%d\n" % k)
+                    acc += 1008
+                else:
+                    body += "    set acc (+ acc (%s_cs u))\n    (println \"after-cs%d\")\n" % (uname, k)
+                    out.append("7\ncs-after\nafter-cs%d\n" % k)
+                    acc += 5
+            body += "    (println acc)\n    return acc\n"
+            out.append("%d\n" % acc)
+            yield {"name": uname, "decls": decls, "body": body, "expected": "".join(out), "ret": acc, "engines": ("native", "eval"),
+                   "what": "match history %s (E = match expression with a return-block arm, S = match statement, cX = X inside a called function, Sc = statement arm calling cE, SE = statement arm containing E)" % " ".join(seq)}
+
+
 def units(tier):
-    for u in itertools.chain(esc_units(tier), loop_units(tier), size_units(tier), evo_units(tier)):
+    for u in itertools.chain(esc_units(tier), loop_units(tier), size_units(tier), evo_units(tier), mhist_units(tier)):
         yield u
